@@ -380,7 +380,7 @@ def conclude(prop, tier, seed, mod, results, errors, wall, replay):
     # --- replay files for new violations
     replay_paths = []
     if new_viol and not replay:
-        rdir = os.path.join(VERIF, 'replays', prop)
+        rdir = os.path.join(os.environ.get('VP_REPLAY_DIR') or os.path.join(VERIF, 'replays'), prop)
         os.makedirs(rdir, exist_ok=True)
         seen_keys = collections.Counter()
         for v in new_viol:
@@ -464,7 +464,7 @@ def write_evidence(prop, tier, seed, mod, evaluations, distinct, nontriv_seen, s
         'wall_s': round(wall, 2),
         'violations': int(unknown_total),
     }
-    edir = os.path.join(VERIF, 'evidence')
+    edir = os.environ.get('VP_EVIDENCE_DIR') or os.path.join(VERIF, 'evidence')
     os.makedirs(edir, exist_ok=True)
     path = os.path.join(edir, '%s.json' % prop)
     try:
